@@ -27,8 +27,28 @@ fn main() {
                 let rest = &text[a + 1..];
                 let end = rest.find("\n}\n").unwrap_or(rest.len());
                 let expanded = &rest[..end];
-                if expanded.matches("pub const ").count() >= src.matches("pub const ").count() {
-                    src = expanded.to_string();
+                // names the module re-exports from elsewhere in the crate (`pub use crate::x::{A, B};`) are part of
+                // `elf::abi` too: find their definitions anywhere in the expanded crate
+                let mut extra = String::new();
+                let mut rest_use = expanded;
+                while let Some(u) = rest_use.find("pub use ") {
+                    let stmt_end = rest_use[u..].find(';').map(|e| u + e).unwrap_or(rest_use.len());
+                    let stmt = &rest_use[u..stmt_end];
+                    for name in stmt.split(|c: char| !(c.is_ascii_alphanumeric() || c == '_')) {
+                        if name.len() >= 3 && name.chars().all(|c| c.is_ascii_uppercase() || c.is_ascii_digit() || c == '_') && name.chars().next().map(|c| c.is_ascii_uppercase()).unwrap_or(false) {
+                            let pat = format!("pub const {name}: ");
+                            if let Some(d) = text.find(&pat) {
+                                let after = &text[d + pat.len()..];
+                                if let Some(eq) = after.find('=') {
+                                    extra.push_str(&format!("    pub const {name}: {} = 0;\n", after[..eq].trim()));
+                                }
+                            }
+                        }
+                    }
+                    rest_use = &rest_use[stmt_end..];
+                }
+                if expanded.matches("pub const ").count() + extra.matches("pub const ").count() >= src.matches("pub const ").count() {
+                    src = format!("{expanded}\n{extra}");
                     println!("cargo:rustc-env=ELFMON_ABI_SOURCE=expanded");
                 }
             }
